@@ -2,6 +2,7 @@ package main
 
 import (
 	"go/token"
+	"strings"
 
 	"golang.org/x/tools/go/ssa"
 )
@@ -60,7 +61,7 @@ func asInstrs(cs []ssa.CallInstruction) []ssa.Instruction {
 }
 
 func ruleC01a(c *Ctx, rule string) {
-	c.describe(rule, "dom: single application — (*rowStore).processInserts has exactly one Tree.Update call site, not nested in an inner loop, guarded by the exact test insert.key != nil (skip entries carry a nil key), and the offset is recorded for every insert before that test; (*table).doInsert has exactly two rowStore.insert call sites: one outside any loop under hasMainValue, one inside the loop over the additional array values")
+	c.describe(rule, "dom: single application — (*rowStore).processInserts has exactly one Tree.Update call site, not nested in an inner loop, guarded by the exact test insert.key != nil (skip entries carry a nil key), and the offset is recorded for every insert before that test; (*table).doInsert hands a point to the row store through exactly one rowStore.insert call, outside any loop, under hasMainValue — the additional array values travel in the same insert and are applied in a range loop over insert.moreVals next to the main update (one offset, one lock region)")
 	if pi := c.need(rule, "(*z.rowStore).processInserts"); pi != nil {
 		ap, ups := ingestApplier(c.P)
 		if ap == nil || !privateHelperOf(c.P, ap, pi) {
@@ -68,10 +69,53 @@ func ruleC01a(c *Ctx, rule string) {
 			return
 		}
 		c.touch(ap)
-		if !c.check(rule, "processInserts: one Tree.Update call site", ap.Pos(), len(ups) == 1, "exactly one call site (in "+stableName(ap)+")", "found "+itoa(len(ups))+" Tree.Update call sites: every point would be applied that many times (or never)") {
+		// the main site applies insert.vals; the only other sites allowed apply the
+		// elements of insert.moreVals (the further values of the same point) inside a
+		// range loop over that slice
+		var mains, extras, others []ssa.CallInstruction
+		for _, u := range ups {
+			a := u.Common().Args
+			switch {
+			case len(a) > 3 && isFieldLoad(a[3], "z.insert.vals"):
+				mains = append(mains, u)
+			case len(a) > 3 && dependsOn(a[3], func(v ssa.Value) bool { return isFieldLoad(v, "z.insert.moreVals") }):
+				extras = append(extras, u)
+			default:
+				others = append(others, u)
+			}
+		}
+		if !c.check(rule, "processInserts: one Tree.Update call site", ap.Pos(), len(mains) == 1 && len(others) == 0 && len(extras) <= 1, "exactly one call site applies insert.vals (in "+stableName(ap)+"), "+itoa(len(extras))+" applies the elements of insert.moreVals", "found "+itoa(len(mains))+" Tree.Update call sites for insert.vals, "+itoa(len(extras))+" for insert.moreVals and "+itoa(len(others))+" other(s): every point would be applied that many times (or never)") {
 			return
 		}
-		up := ups[0]
+		up := mains[0]
+		for _, ex := range extras {
+			// one level deeper than the main site, in a range loop over insert.moreVals, under the same guard
+			l := innermostLoop(ap, ex.Block())
+			okLoop := l != nil && isRangeHeader(l.header) && len(loopsContaining(ap, ex.Block())) == len(loopsContaining(ap, up.Block()))+1
+			if okLoop {
+				okLoop = false
+				for _, in := range l.header.Instrs {
+					_ = in
+				}
+				// the ranged collection: len(insert.moreVals) bounds the loop
+				for b := range l.body {
+					for _, in := range b.Instrs {
+						if call, ok := in.(*ssa.Call); ok && isCall(call, "builtin len") && isFieldLoad(call.Call.Args[0], "z.insert.moreVals") {
+							okLoop = true
+						}
+					}
+				}
+				for _, p := range l.header.Preds {
+					for _, in := range p.Instrs {
+						if call, ok := in.(*ssa.Call); ok && isCall(call, "builtin len") && isFieldLoad(call.Call.Args[0], "z.insert.moreVals") {
+							okLoop = true
+						}
+					}
+				}
+			}
+			sameGuard := up.Block().Dominates(ex.Block())
+			c.check(rule, "processInserts: further values applied once each, with the main value", ex.Pos(), okLoop && sameGuard, "range loop over insert.moreVals right after the main update, under the same lock and key test", "the additional values of a point are not applied exactly once each next to the main value (not a range loop over insert.moreVals dominated by the main update)")
+		}
 		// loop nesting: the update (or the single call of the helper containing it) sits directly in the select loop
 		nest := len(loopsContaining(ap, up.Block()))
 		if ap != pi {
@@ -97,20 +141,24 @@ func ruleC01a(c *Ctx, rule string) {
 		}
 		c.check(rule, "processInserts: offset recorded for every insert", up.Pos(), mu != nil && instrDominates(mu, up), "ms.offsetsBySource[source] = offset precedes the key test", "the offset of an insert is not recorded unconditionally before the row is applied")
 	}
+	ruleOneInsertPerPoint(c, rule)
+}
+
+// ruleOneInsertPerPoint: a WAL entry becomes exactly one row store insert (C01.a, C02.k).
+func ruleOneInsertPerPoint(c *Ctx, rule string) {
 	if di := c.need(rule, "(*z.table).doInsert"); di != nil {
-		ins := callsTo(di, "(*z.rowStore).insert")
-		if !c.check(rule, "doInsert: two rowStore.insert call sites", di.Pos(), len(ins) == 2, "main value + additional array values", "found "+itoa(len(ins))+" rowStore.insert call sites (expected 2): a duplicated call double-counts every point, a missing one loses values") {
+		var ins []ssa.CallInstruction
+		for _, f := range withHelpers(c.P, di) {
+			ins = append(ins, callsTo(f, "(*z.rowStore).insert")...)
+		}
+		if !c.check(rule, "doInsert: one rowStore.insert call site", di.Pos(), len(ins) == 1, "a point (with all its values) is handed to the row store once", "found "+itoa(len(ins))+" rowStore.insert call sites (expected 1): a duplicated call double-counts every point, a missing one loses it") {
 			return
 		}
-		var outside, inside ssa.CallInstruction
-		for _, call := range ins {
-			if len(loopsContaining(di, call.Block())) == 0 {
-				outside = call
-			} else {
-				inside = call
-			}
+		var outside ssa.CallInstruction
+		if len(loopsContaining(ins[0].Parent(), ins[0].Block())) == 0 {
+			outside = ins[0]
 		}
-		c.check(rule, "doInsert: one insert outside loops, one in the additional-values loop", di.Pos(), outside != nil && inside != nil, "as expected", "the two rowStore.insert calls are not (one outside any loop, one inside the loop over additional values)")
+		c.check(rule, "doInsert: one row store insert per point", ins[0].Pos(), outside != nil, "the call is outside any loop: one insert carries the point's offset and all its values", "rowStore.insert is called in a loop: one WAL entry becomes several row store inserts with the same offset, and a flush between them persists the offset with only part of the point's values (lost for good after a kill)")
 		if outside != nil {
 			g := false
 			for _, a := range guardsOf(outside.Block()) {
@@ -290,9 +338,107 @@ func init() {
 		Explanation: "Decides the ingest wiring clause: one memstore update per accepted WAL entry (exact nil-key test), the three filters (retention, partition, WHERE) precede the store on every path, the period index comes from RoundTimeUp, nothing stored aliases the recycled WAL buffer, and a rejected entry still advances the offset.",
 		NotDecided:  []string{"numerical equality with a reference aggregator", "expression arithmetic and value coercions", "Sequence.UpdateValue offset arithmetic and Merge alignment (values)"},
 		Assumptions: []string{"go/ssa models control flow", "modsum external tables"},
-		Rules: []func(*Ctx){func(c *Ctx) { ruleC01a(c, "C01.a") }, func(c *Ctx) { ruleC01b(c, "C01.b") }, func(c *Ctx) { ruleC01c(c, "C01.c") }, func(c *Ctx) { ruleC01d(c, "C01.d") }, func(c *Ctx) {
+		Rules: []func(*Ctx){func(c *Ctx) { ruleC01a(c, "C01.a") }, func(c *Ctx) { ruleC01b(c, "C01.b") }, func(c *Ctx) { ruleC01c(c, "C01.c") }, func(c *Ctx) { ruleC01d(c, "C01.d") }, func(c *Ctx) { ruleC01f(c, "C01.f") }, func(c *Ctx) {
 			c.describe("C01.e", "dom: a rejected entry still advances the offset (t.skip)")
 			ruleSkipOnReject(c, "C01.e")
 		}},
 	})
+}
+
+// ruleC01f: bytemap.Build(iterate, _, iteratesSorted=true) runs its iterate
+// callback twice (once to size the map, once to fill it). A callback that
+// accumulates into captured state therefore accumulates twice.
+func ruleC01f(c *Ctx, rule string) {
+	c.describe(rule, "flow: every closure handed to bytemap.Build with iteratesSorted=true is idempotent — it is run twice (sizing pass, filling pass), so it may set captured variables to values that do not depend on their previous content, but not accumulate into them (append, +=)")
+	n := 0
+	perTop := map[*ssa.Function]int{}
+	for _, fn := range c.P.ModFns {
+		if strings.HasPrefix(pkgOf(fn), "z/cmd") || strings.HasPrefix(pkgOf(fn), "z/testsupport") {
+			continue
+		}
+		for _, call := range callsTo(fn, "github.com/getlantern/bytemap.Build") {
+			a := call.Common().Args
+			if len(a) != 3 {
+				continue
+			}
+			if twice, isC := constBool(a[2]); isC && !twice {
+				continue
+			}
+			mc, ok := a[0].(*ssa.MakeClosure)
+			if !ok {
+				continue // a function value passed through: its body is checked where it is built
+			}
+			cb := mc.Fn.(*ssa.Function)
+			n++
+			c.touch(cb)
+			top := fn
+			for top.Parent() != nil {
+				top = top.Parent()
+			}
+			found := false
+			for _, f := range withAnon(cb) {
+				for _, in := range instrs(f) {
+					st, isSt := in.(*ssa.Store)
+					if !isSt {
+						continue
+					}
+					cell := cellRoot(st.Addr)
+					al, isAl := cell.(*ssa.Alloc)
+					if !isAl || al.Parent() == f || isWithin(al.Parent(), cb) {
+						continue // a variable of the callback itself: fresh on every run
+					}
+					if resetAtStart(cb, cell) {
+						continue // emptied at the start of every run: what it collects is per run
+					}
+					// accumulation: the stored value depends on a load of the same cell
+					if dependsOn(st.Val, func(v ssa.Value) bool {
+						u, ok := v.(*ssa.UnOp)
+						return ok && u.Op == token.MUL && cellRoot(u.X) == cell
+					}) {
+						found = true
+						c.bad(rule, stableName(top)+": "+al.Comment+" accumulated inside a bytemap.Build callback", st.Pos(), "the callback passed to bytemap.Build (iteratesSorted=true) is run twice; it appends to / accumulates into the captured variable '"+al.Comment+"', so everything it collects is collected twice — every array value after the first is inserted, and counted in _points, twice")
+					}
+				}
+			}
+			if !found {
+				perTop[top]++
+				c.ok(rule, stableName(top)+": idempotent bytemap.Build callback #"+itoa(perTop[top]), call.Pos(), "no captured variable is accumulated into")
+			}
+		}
+	}
+	c.floor(rule, "bytemap.Build callbacks", n, 3)
+}
+
+// isWithin: f is g or nested (transitively) in g.
+func isWithin(f, g *ssa.Function) bool {
+	for ; f != nil; f = f.Parent() {
+		if f == g {
+			return true
+		}
+	}
+	return false
+}
+
+// resetAtStart: the callback's entry block stores to the captured cell a value
+// that carries none of its previous content (nil, a constant, a fresh make, or
+// x[:0]).
+func resetAtStart(cb *ssa.Function, cell ssa.Value) bool {
+	if len(cb.Blocks) == 0 {
+		return false
+	}
+	for _, in := range cb.Blocks[0].Instrs {
+		st, ok := in.(*ssa.Store)
+		if !ok || cellRoot(st.Addr) != cell {
+			continue
+		}
+		switch v := st.Val.(type) {
+		case *ssa.Const, *ssa.MakeSlice, *ssa.MakeMap:
+			return true
+		case *ssa.Slice:
+			if k, isK := constInt(v.High); isK && k == 0 && v.Low == nil {
+				return true
+			}
+		}
+	}
+	return false
 }
